@@ -2,7 +2,7 @@
    yielded in, and nothing else appears", the union over generators, and the property
    predicates evaluated on the implementation's outputs. *)
 From Coq Require Import List String Ascii Bool Arith.
-From Annet Require Import Base.Str Base.Tree Model.Offside Model.GenProg.
+From Annet Require Import Base.Str Base.Tree Model.Pattern Model.Acl Model.Offside Model.GenProg Model.GenAcl.
 Import ListNotations.
 Open Scope string_scope.
 Open Scope list_scope.
@@ -110,3 +110,125 @@ Definition union_ref (fs : list forest) : forest := insall (flat_map (paths []) 
 
 Definition P_C10_union (fs : list forest) (out : forest) : bool :=
   forest_eqb out (union_ref fs).
+
+(* ---------- what an ACL says about a yielded path ---------- *)
+
+Inductive pstat :=
+| Passed            (* every line of the path is matched by the rules in force and kept *)
+| Refused           (* some line of the path is matched by no rule in force *)
+| Dropped.          (* some line is matched only to be discarded: the reverse form of a rule all of
+                       whose cant_delete flags are set *)
+
+Definition pstat_eqb (a b : pstat) : bool :=
+  match a, b with Passed, Passed | Refused, Refused | Dropped, Dropped => true | _, _ => false end.
+
+Section Cover.
+  Variable rmatch : string -> string -> option (list string).
+  Variable rsrc : string -> string.
+  Variable rrev : string -> string.
+  Variable norm : string -> string.
+
+  Let mrow := match_row_to_acl rmatch rsrc rrev norm.
+
+  (* walk the path from the top; the rules in force below a line are those the ACL model selects *)
+  Fixpoint path_status (rs : aset) (p : list string) : pstat :=
+    match p with
+    | [] => Passed
+    | row :: p' =>
+      match mrow row rs false with
+      | MSome m crs => if drops m then Dropped else path_status crs p'
+      | _ => Refused
+      end
+    end.
+
+  (* the generators with a deletable rule matching the last line of the path, when its parents are
+     passed: AclNotExclusiveError names them when there is more than one *)
+  Fixpoint conflict_at (rs : aset) (p : list string) : option (list string) :=
+    match p with
+    | [] => None
+    | [row] => match mrow row rs true with MErr g => Some g | _ => None end
+    | row :: p' =>
+      match mrow row rs false with
+      | MSome m crs => if drops m then None else conflict_at crs p'
+      | _ => None
+      end
+    end.
+End Cover.
+
+Definition p_path_status (v : avendor) := path_status acl_pm acl_psrc (acl_prev v) (acl_norm v).
+Definition p_conflict_at (v : avendor) := conflict_at acl_pm acl_psrc (acl_prev v) (acl_norm v).
+
+(* ---------- property predicates for the ACL steps ---------- *)
+
+(* Confinement.  For a program of plain rows and a compilable ACL: if the generator's own ACL passes
+   every yielded path the result is exactly the program's tree; otherwise the run fails with a
+   generator error naming one of the yielded paths the ACL does not pass (never emitted, never
+   silently dropped). *)
+Definition P_C10_confined (v : avendor) (g : gen) (out : gres) : bool :=
+  if wf_prog (g_prog g) then
+    match compile_acl (g_acl g) with
+    | None => true
+    | Some rs =>
+      let ps := paths [] (tree_of (g_prog g)) in
+      match filter (fun q => negb (pstat_eqb (p_path_status v rs q) Passed)) ps with
+      | [] => gres_eqb out (GOk (tree_of (g_prog g)))
+      | bad => existsb (fun q => gres_eqb out (GAcl (acl_err_text q))) bad
+      end
+    end
+  else true.
+
+(* the stricter reading of "does not cover": a line discarded through the reverse/cant_delete
+   rule counts as passed-over silently; used to classify a failure of P_C10_confined *)
+Definition only_dropped (v : avendor) (g : gen) : bool :=
+  match compile_acl (g_acl g) with
+  | None => false
+  | Some rs =>
+    forallb (fun q => negb (pstat_eqb (p_path_status v rs q) Refused)) (paths [] (tree_of (g_prog g)))
+  end.
+
+Definition all_ok (outs : list gres) : option (list forest) :=
+  fold_right (fun o acc => match o, acc with GOk f, Some fs => Some (f :: fs) | _, _ => None end) (Some []) outs.
+
+(* Exclusivity and union.  Given the generators' own results (all succeeded) and the merged,
+   generator-tagged ACL: a conflict is reported iff some line of the union is deletable by two
+   generators; otherwise the desired configuration is the union of the generators' outputs. *)
+Definition P_C10_exclusive (v : avendor) (gs : list gen) (fs : list forest) (out : ores) : bool :=
+  match compile_acl (combined_acl gs) with
+  | None => true
+  | Some rs =>
+    let u := union_ref fs in
+    let confl := flat_map (fun q => match p_conflict_at v rs q with Some g => [(q, g)] | None => [] end)
+                          (paths [] u) in
+    match confl with
+    | [] => ores_eqb out (OOk u)
+    | _ => existsb (fun qg => ores_eqb out (OExclusive (excl_err_text (fst qg)) (snd qg))) confl
+    end
+  end.
+
+(* no conflict, but the merged ACL does not pass a line every generator's own ACL passed *)
+Definition merged_acl_loses (v : avendor) (gs : list gen) (fs : list forest) : bool :=
+  match compile_acl (combined_acl gs) with
+  | None => false
+  | Some rs => existsb (fun q => negb (pstat_eqb (p_path_status v rs q) Passed)) (paths [] (union_ref fs))
+  end.
+
+(* ... because the merged ACL discards it through the reverse form of a cant_delete rule *)
+Definition merged_acl_discards (v : avendor) (gs : list gen) (fs : list forest) : bool :=
+  match compile_acl (combined_acl gs) with
+  | None => false
+  | Some rs => existsb (fun q => pstat_eqb (p_path_status v rs q) Dropped) (paths [] (union_ref fs))
+  end.
+
+(* _old_new_per_device as a whole, given the generators' own results: the first generator error
+   escapes; otherwise the exclusivity/union clause *)
+Definition first_err (outs : list gres) : option gres :=
+  find (fun o => match o with GOk _ => false | _ => true end) outs.
+
+Definition P_C10_old_new (v : avendor) (gs : list gen) (outs : list gres) (out : ores) : bool :=
+  match first_err outs with
+  | Some e => ores_eqb out (OGenErr e)
+  | None => match all_ok outs with
+            | Some fs => P_C10_exclusive v gs fs out
+            | None => true
+            end
+  end.
